@@ -142,7 +142,7 @@ func (c *c14) Plan(seed uint64, tier string, worker, workers, idx int) *Plan {
 }
 
 func (c *c14) Check(rr *RunResult, st *Stats) []Failure {
-	fs := KernelFailures(rr)
+	fs := KernelFailures(rr, false)
 	// Writes into memory the caller lent (alias backing arrays, input buffers)
 	// are C06's and C04's subject; here only their functional consequences
 	// (a corrupted alias no longer found by Lookup) count.
